@@ -6,7 +6,7 @@ CONSTANTS
   LeafMax = 3
   MaxSpecs = 3
   HookVals = {TRUE}
-  MinW = 1
+  MinW = 3
   CallExtra = 0
   AnyN = 0
   Dev = {}
